@@ -837,7 +837,43 @@ static void krylov_case(vf::Draw& d, vf::Case& c, int fam)
         for (Index i = 0; i < n; i++)
             ev[i] = lam_unit[(size_t) i].real();
         CMatL A;
-        if (fam == F_HERM)
+        // Reflection-symmetric variant (J A J = A with J the reversal permutation, exactly): every eigenvector is symmetric or antisymmetric
+        // under J and the prescribed eigenvalues alternate between the two classes. A start vector that is itself invariant under J (a constant
+        // vector, say) can only ever see one class; the library's default start vector is documented as random, so the selected set must be found.
+        const bool reflect = d.one_in("reflection_symmetric", 4);
+        if (reflect)
+        {
+            c.cls("matrix/reflection_symmetric");
+            P.shape += "+reflection_symmetric";
+            const Index ns = (n + 1) / 2, na = n / 2;
+            CMatL Bs = CMatL::Zero(n, ns), Ba = CMatL::Zero(n, na);
+            const ld r2 = std::sqrt((ld) 0.5);
+            for (Index k = 0; k < na; k++)
+            {
+                Bs(k, k) = r2;
+                Bs(n - 1 - k, k) = r2;
+                Ba(k, k) = r2;
+                Ba(n - 1 - k, k) = -r2;
+            }
+            if (ns > na)
+                Bs(na, na) = 1;
+            CMatL Qs, Qa;
+            if (fam == F_HERM)
+            {
+                Qs = Bs * vf::random_unitary(ns, g);
+                Qa = Ba * vf::random_unitary(na, g);
+            }
+            else
+            {
+                Qs = Bs * vf::widen(vf::random_orthogonal(ns, g));
+                Qa = Ba * vf::widen(vf::random_orthogonal(na, g));
+            }
+            CMatL Q(n, n);
+            for (Index i = 0; i < n; i++)
+                Q.col(i) = (i % 2 == 0) ? Qs.col(i / 2) : Qa.col(i / 2);
+            A = vf::herm_from_spectrum(ev, Q);
+        }
+        else if (fam == F_HERM)
             A = vf::herm_from_spectrum(ev, vf::random_unitary(n, g));
         else
             A = vf::widen(vf::sym_from_spectrum(ev, vf::random_orthogonal(n, g)));
@@ -851,6 +887,22 @@ static void krylov_case(vf::Draw& d, vf::Case& c, int fam)
             A(j, j) = cld(A(j, j).real(), 0);
             for (Index i = j + 1; i < n; i++)
                 A(j, i) = std::conj(A(i, j));
+        }
+        if (reflect)
+        {
+            // make the symmetry exact after rounding: A(n-1-i, n-1-j) = A(i, j), anti-diagonal entries real
+            for (Index j = 0; j < n; j++)
+                for (Index i = j; i < n; i++)
+                {
+                    const Index ir = n - 1 - i, jr = n - 1 - j;
+                    cld v = A(i, j);
+                    if (ir == j)
+                        v = cld(v.real(), 0);
+                    A(i, j) = v;
+                    A(j, i) = std::conj(v);
+                    A(ir, jr) = v;
+                    A(jr, ir) = std::conj(v);
+                }
         }
         Aplain = A;
         Eigen::SelfAdjointEigenSolver<CMatL> es(CMatL(A / cld(P.scale)), Eigen::EigenvaluesOnly);
